@@ -801,4 +801,75 @@ pub mod verif {
     pub fn add_log2_ceil(x: u32) -> u32 {
         super::add_log2_ceil(x)
     }
+
+    /// LZ77 decoder state as kept between calls.
+    #[derive(Debug, Clone)]
+    pub struct Lz77Snapshot {
+        pub window: Vec<u32>,
+        pub num_to_copy: u32,
+        pub copy_pos: u32,
+        pub num_decoded: u32,
+    }
+
+    /// One call of `DecoderInner::read_varint_with_multiplier_clustered_lz77` on a decoder with
+    /// two clusters (0: symbols, 1: LZ77 distances) whose prefix codes each have the single symbol
+    /// given (so the token costs no bits and can be any value).
+    #[allow(clippy::too_many_arguments)]
+    pub fn lz77_step(
+        bitstream: &mut Bitstream,
+        symbol_token: u16,
+        distance_token: u16,
+        symbol_conf: &IntConf,
+        distance_conf: &IntConf,
+        length_conf: &IntConf,
+        min_symbol: u32,
+        min_length: u32,
+        dist_multiplier: u32,
+        snapshot: Lz77Snapshot,
+    ) -> (CodingResult<u32>, Lz77Snapshot) {
+        fn conf(c: &IntConf) -> IntegerConfig {
+            IntegerConfig {
+                split_exponent: c.split_exponent,
+                split: 1 << c.split_exponent,
+                msb_in_token: c.msb_in_token,
+                lsb_in_token: c.lsb_in_token,
+            }
+        }
+        let mut clusters = Vec::with_capacity(2);
+        clusters.push(0u8);
+        clusters.push(1u8);
+        let mut configs = Vec::with_capacity(2);
+        configs.push(conf(symbol_conf));
+        configs.push(conf(distance_conf));
+        let mut dist = Vec::with_capacity(2);
+        dist.push(prefix::Histogram::verif_single_symbol(symbol_token));
+        dist.push(prefix::Histogram::verif_single_symbol(distance_token));
+        let mut inner = DecoderInner {
+            clusters,
+            configs,
+            code: Coder::PrefixCode(Arc::new(dist)),
+        };
+        let mut state = Lz77State {
+            lz_len_conf: conf(length_conf),
+            window: snapshot.window,
+            num_to_copy: snapshot.num_to_copy,
+            copy_pos: snapshot.copy_pos,
+            num_decoded: snapshot.num_decoded,
+        };
+        let r = inner.read_varint_with_multiplier_clustered_lz77(
+            bitstream,
+            0,
+            dist_multiplier,
+            &mut state,
+            min_symbol,
+            min_length,
+        );
+        let after = Lz77Snapshot {
+            window: state.window,
+            num_to_copy: state.num_to_copy,
+            copy_pos: state.copy_pos,
+            num_decoded: state.num_decoded,
+        };
+        (r, after)
+    }
 }
